@@ -20,6 +20,35 @@ def main():
     mod = importlib.import_module("props." + pid.lower())
     ctx = vlib.Ctx(pid, a.tier, seed)
     ctx.replay = a.replay
+    # watchdog: a driver that never returns (e.g. a change to tinode/chat that makes a handler wait for ever) must
+    # end as a reported violation, not as a check that runs for ever.  The check becomes the leader of its own process
+    # group so that the drivers it started can be killed with it.
+    limit = int(os.environ.get("VERIF_WATCHDOG_S", "900" if a.tier == "quick" else "14400"))
+    try:
+        os.setpgrp()
+    except OSError:
+        pass
+
+    def on_alarm(signum, frame):
+        import json, signal as sg
+        d = os.path.join(vlib.ROOT, "replays", pid)
+        os.makedirs(d, exist_ok=True)
+        path = os.path.join(d, "%s_check-did-not-terminate.json" % a.tier)
+        json.dump({"property": pid, "seed": seed, "kind": "corr", "key": "check-did-not-terminate",
+                   "what": "the check did not finish within %d s: a driver of the implementation (or the model runner) stopped answering; "
+                           "the last files under build/run/%s show the scenario that was running" % (limit, pid),
+                   "replay": {"correspondence": "termination of the drivers of %s" % pid, "work_dir": ctx.work}}, open(path, "w"), indent=1)
+        print("corr: the check did not finish within %d s (driver hang)" % limit)
+        print("VIOLATION property=%s replay=%s no-failing-input-found" % (pid, path), flush=True)
+        sg.signal(sg.SIGTERM, sg.SIG_IGN)
+        try:
+            os.killpg(os.getpgrp(), sg.SIGTERM)
+        except OSError:
+            pass
+        os._exit(1)
+    import signal
+    signal.signal(signal.SIGALRM, on_alarm)
+    signal.alarm(limit)
     mod.run(ctx)
 
 
